@@ -5,16 +5,16 @@ EXTENDS Gossip, Json
 \* itself, its inventory (two versions) and refs for a private repository we have (2) and one we
 \* do not have (3); plus the three "bad" classes.
 MCAnns ==
-    {[node |-> 3, kind |-> "node", repo |-> 0, ts |-> 5, sig |-> TRUE]}
-    \cup {[node |-> 3, kind |-> "inv", repo |-> 0, ts |-> t, sig |-> TRUE] : t \in {5, 6}}
-    \cup {[node |-> 3, kind |-> "refs", repo |-> r, ts |-> t, sig |-> TRUE] : r \in {2, 3}, t \in {5, 6}}
-    \cup {[node |-> 3, kind |-> "inv", repo |-> 0, ts |-> 6, sig |-> FALSE],
-          [node |-> 3, kind |-> "node", repo |-> 0, ts |-> 4000, sig |-> TRUE],
+    {[node |-> 3, kind |-> "node", repo |-> 0, ts |-> 5000, sig |-> TRUE]}
+    \cup {[node |-> 3, kind |-> "inv", repo |-> 0, ts |-> t, sig |-> TRUE] : t \in {5000, 6000}}
+    \cup {[node |-> 3, kind |-> "refs", repo |-> r, ts |-> t, sig |-> TRUE] : r \in {2, 3}, t \in {5000, 6000}}
+    \cup {[node |-> 3, kind |-> "inv", repo |-> 0, ts |-> 6000, sig |-> FALSE],
+          [node |-> 3, kind |-> "node", repo |-> 0, ts |-> 4000000, sig |-> TRUE],
           [node |-> 3, kind |-> "inv", repo |-> 0, ts |-> 0, sig |-> TRUE],
-          [node |-> 3, kind |-> "inv", repo |-> 0, ts |-> -4000, sig |-> TRUE]}
+          [node |-> 3, kind |-> "inv", repo |-> 0, ts |-> -4000000, sig |-> TRUE]}
 
 \* inventory content of node 3's announcements: the two versions differ
-MCInvOf(a) == IF a.ts = 5 THEN {1} ELSE {1, 3}
+MCInvOf(a) == IF a.ts = 5000 THEN {1} ELSE {1, 3}
 
 MCAllow == (1 :> {}) @@ (2 :> {1}) @@ (3 :> {})
 MCDelegates == (1 :> {0}) @@ (2 :> {0}) @@ (3 :> {3})
